@@ -85,6 +85,7 @@ def forms_for(cn, t):
     F.append(('assign-call', 'y = ret_%s();' % t))
     F.append(('cond-discard', 'k ? x : y; (k ? ret_%s() : x);' % t))
     F.append(('cond-void-arm', 'k ? ret_%s() : (void)0; k ? (void)0 : x; (k - 1) ? (void)0 : ret_%s(); k ? x : ret_void();' % (t, t)))
+    F.append(('return-value-in-void-function', 'fwd_%s(); fwdv_%s(x, k); fwdv_%s(x, k - 1);' % (t, t, t)))
     F.append(('comma-in-member-base', '(ret_%s(), s40).a[1]; (x, s40).a[2];' % t))
     F.append(('stmt-expr-discard', '({ x; }); ({ ret_%s(); });' % t))
     F.append(('stmt-expr-used', 'y = ({ z = x; x; });'))
@@ -164,6 +165,8 @@ def run(ctx):
     ctx.assumptions += ['x87 depth is compared with the depth at function entry (a caller may hold a long double across a call: open finding of C06)',
                         'only statement boundaries are observed']
     takes = '\n'.join('static int take_%s(%s s) { return sizeof s > 0; }' % (t, cn) for cn, t in TYPES if t.startswith('S'))
+    # `return e;` in a function returning void (accepted with a warning by gcc): the operand is evaluated and its value dropped
+    takes += '\n' + '\n'.join('static void fwd_%s(void) { return ret_%s(); }\nstatic void fwdv_%s(%s v, int c) { if (c) return v; return (void)v; }' % (t, t, t, cn) for cn, t in TYPES)
     units = []
     k = 0
     meta = {}
